@@ -248,3 +248,17 @@ MANIFEST_TEXT["C15"] = dict(engine="E-input", design_ref="DESIGN.md §4 C15",
     technique="bounded exhaustive input enumeration on the real code (all multisets over small universes, bucket-boundary duplicates, all short sequences for try_from_iter) against a sorted-list reference",
     level_text="All multisets up to the stated size incl. overfull ones, duplicates at real bucket boundaries, and every sorted or unsorted sequence up to length 5/6 through try_from_iter; every present-value query and both iterators in both directions at every split.",
     level_note="Larger multisets are not explored; rank_zero/select_zero/zero_iter are outside the property.")
+
+PROPS["C11"] = dict(
+    driver="c11", builds=["rel", "dbg"], level="exploration",
+    rule="E-input: every bit sequence of length <= N plus representatives (all-zero and all-one vectors at word boundaries, multi-word, multi-block and long-superblock vectors) is built as each of BitVector / SparseVector / RLVector and sent through "
+         "EVERY conversion chain of 1..3 conversions: 42 chains by From (consecutive types differ) and 117 chains by copy_bit_vec (any type to any type incl. itself). The result must have the reference length and set positions, be == the structure "
+         "the target type's own builder produces from the same bits, and serialize to identical bytes. Builder decompositions: every run list of <= 3 runs of length <= R (gaps 0/1/2) x EVERY composition of each run into adjacent try_set pieces "
+         "(down to bit at a time) x {no set_len, set_len(current length) before every run, set_len(next start) before every run} x tail {0, 2}: the RLVector must be the canonical one. Non-trivial = has set and unset bits / any decomposition.",
+    bounds={"quick": "N=10, R=4", "thorough": "N=12, R=5"},
+    assumptions=[HOOK_ASSUMPTION, MODEL_ASSUMPTION, "BitVector construction routes from a raw vector / bool iterator are compared in C01"],
+)
+MANIFEST_TEXT["C11"] = dict(engine="E-input", design_ref="DESIGN.md §4 C11",
+    technique="bounded exhaustive enumeration of bit sequences x all conversion chains up to length 3 x all builder call decompositions, with a canonical-form oracle (== and identical bytes)",
+    level_text="All 159 conversion chains on every bit sequence up to 10/12 bits and on multi-block representatives; every decomposition of small run lists into builder calls incl. interleaved set_len.",
+    level_note="Chains longer than 3 and larger inputs are not explored.")
